@@ -1503,7 +1503,7 @@ func vC17QueueKeys(q *queue.ProvideQueue) ([]mh.Multihash, error) {
 
 func TestVerif_C17_restart(t *testing.T) {
 	vh.Run(t, vh.Spec{Prop: "C17", Unit: "restart", Quick: 10, Thorough: 250, CostMs: 700,
-		Rule: "PRNG scenario: 300-1500 peers, 20-400 ProvideOnce keys + 0-200 StartProviding keys handed to a first provider whose provide queue cannot drain before Close (variant A: slow recipients 150-400 ms, Close mid-way; variant B: Close 0-50 ms after the hand-over with a single slow worker); queue content sampled right before Close; a second provider on the same datastore/keystore with resume (default) must advertise every sampled key completely within 30 virtual minutes; non-trivial = >= 1 key was still queued at Close; distinct by parameter tuple + queued count",
+		Rule: "PRNG scenario: 300-1500 peers, 20-400 ProvideOnce keys + 0-200 StartProviding keys (none in every third case) handed to a first provider whose provide queue cannot drain before Close (one worker, 1-3 connections, recipients taking 150-400 ms; Close 1-40 s or 0-50 ms after the hand-over); queue content sampled right before Close; a second provider on the same datastore/keystore with resume (default) must advertise every sampled key completely within 30 virtual minutes; non-trivial = >= 1 key was still queued at Close; distinct by parameter tuple + queued count",
 		Clauses: []string{"selfcheck", "restart-resume", "recipient-reported", "payload"}},
 		func(c *vh.Case) {
 			if !vC17SelfCheck(c) {
@@ -1517,6 +1517,9 @@ func TestVerif_C17_restart(t *testing.T) {
 			p.sendLat = time.Duration(150+c.R.Intn(250)) * time.Millisecond
 			w1 := vC17Workers{1, 0, 0, 1 + c.R.Intn(3)}
 			nStart := c.R.Intn(201)
+			if c.Idx%3 == 1 {
+				nStart = 0 // empty keystore: nothing but the persisted queue can make the second instance advertise
+			}
 			closeAfter := time.Duration(c.R.Intn(50)) * time.Millisecond
 			if c.Idx%2 == 0 {
 				closeAfter = time.Duration(1+c.R.Intn(40)) * time.Second
@@ -1617,6 +1620,9 @@ func TestVerif_C17_restart(t *testing.T) {
 				return "queued by StartProviding in the first instance, in the keystore"
 			}
 			sim.sigOf = func(k int32) string {
+				if isOnce[k] && nStart == 0 {
+					return "restart/not-resumed/provide-once-key/empty-keystore"
+				}
 				if isOnce[k] {
 					return "restart/not-resumed/provide-once-key"
 				}
